@@ -150,4 +150,25 @@ def resolve (exists_ : String → Bool) (fl : Flags) (doc : Option J) : Except C
   | .ok () => .ok s
   | .error e => .error e
 
+/-! ### discovery of the configuration document (`generate` without `-c`) -/
+
+/-- what one of the three places (`./tauri.conf.json`, `./src-tauri/tauri.conf.json`, `../tauri.conf.json`) holds -/
+inductive Place where
+  | absent                 -- no file
+  | unreadable             -- a file that is not a JSON document (`from_tauri_config_unvalidated` fails)
+  | doc (j : J)
+
+/-- the places are tried in order: an absent or unreadable one is passed over, the first readable document decides —
+    it is used when it carries a typegen block, and it *ends the search with the defaults* when it does not -/
+def discover : List Place → Option J
+  | [] => none
+  | .absent :: r => discover r
+  | .unreadable :: r => discover r
+  | .doc j :: _ => match readTypegen j with
+    | some _ => some j
+    | none => none
+
+def resolveDiscovered (exists_ : String → Bool) (fl : Flags) (places : List Place) : Except CfgErr Settings :=
+  resolve exists_ fl (discover places)
+
 end Cf
